@@ -35,6 +35,15 @@ BASES = {
 }
 
 
+# atoms tagged with two components (`states("Main", "X", x=1.0)`): the component field is the text between the outer quotes
+BASES["tags"] = [("parameter", "Main", "a", "1.0"), ("parameter", 'Main", "X', "k", "2.0"), ("state", 'Main", "X', "x", "1.0"), ("state", "Main", "y", "2.0"),
+                 ("assign", 'Main", "X', "g", "k*x"), ("assign", 'Main", "X', "dx_dt", "a - g"), ("assign", "Main", "dy_dt", "x - y*a")]
+
+
+def tags(comp):
+    return frozenset(t.strip().strip('"') for t in comp.split('", "')) if comp else frozenset([""])
+
+
 def render(defs):
     """each definition becomes its own block (so that 'before/after' and 'other component' are expressible)"""
     lines = []
@@ -71,14 +80,14 @@ def ill_formed(defs):
                 return f"kind clash for {name}"
             if len({d[3].replace(' ', '') for d in ds}) > 1:
                 return f"two differing definitions of {name}"
-    states = {(d[1], d[2]) for d in defs if d[0] == "state"}
+    states = {(tg, d[2]) for d in defs if d[0] == "state" for tg in tags(d[1])}
     import re
     for kind, comp, name, rhs in defs:
         if kind == "assign":
             m = re.match(r"^d(\w+)_dt$", name)
-            if m and (comp, m.group(1)) not in states:
+            if m and any((tg, m.group(1)) not in states for tg in tags(comp)):
                 return f"derivative {name} without a state {m.group(1)} in component '{comp}'"
-    ders = {(d[1], d[2]) for d in defs if d[0] == "assign"}
+    ders = {(tg, d[2]) for d in defs if d[0] == "assign" for tg in tags(d[1])}
     for comp, s in states:
         if (comp, f"d{s}_dt") not in ders:
             return f"state {s} without derivative"
@@ -109,14 +118,17 @@ def faults(base_name):
     out = []  # (label, defs)
     comps = sorted({d[1] for d in base})
     other = {c: [o for o in comps if o != c] for c in comps}
-    alt = {"c": ["3", "1.0"], "a": ["2*p*x", "q", "p*x + q", "x*p + 0"], "b": ["a - q*c", "q", "a"], "dx_dt": ["x - b" if base_name == "one" else "x - a", "p", "-x"],
-           "dy_dt": ["y*a*2" if base_name == "one" else "y*b*2", "q", "1"], "x": ["5.0", "1"], "y": ["7.5"], "p": ["4.0", "2"], "q": ["1.5"]}
+    if base_name == "tags":
+        alt = {"a": ["3.0"], "k": ["1.5"], "x": ["5.0"], "y": ["7.5"], "g": ["2*k*x", "k + x", "a"], "dx_dt": ["g - a", "-x", "a"], "dy_dt": ["y*a - x", "1"]}
+    else:
+      alt = {"c": ["3", "1.0"], "a": ["2*p*x", "q", "p*x + q", "x*p + 0"], "b": ["a - q*c", "q", "a"], "dx_dt": ["x - b" if base_name == "one" else "x - a", "p", "-x"],
+             "dy_dt": ["y*a*2" if base_name == "one" else "y*b*2", "q", "1"], "x": ["5.0", "1"], "y": ["7.5"], "p": ["4.0", "2"], "q": ["1.5"]}
     for i, d in enumerate(base):
         kind, comp, name, rhs = d
         # textually identical duplicate = control (not a differing definition)
         for pos in ("before", "after"):
             for c2 in [comp] + other[comp]:
-                if kind == "assign" and name.startswith("d") and name.endswith("_dt") and c2 != comp:
+                if kind == "assign" and name.startswith("d") and name.endswith("_dt") and c2 != comp and base_name != "tags":
                     continue  # that is the 'derivative in the wrong component' fault below
                 for r2 in [rhs] + alt.get(name, []):
                     nd = (kind, c2, name, r2)
@@ -238,7 +250,8 @@ def run_item(item):
                                     "what": f"ill-formed text ({reason}) is accepted by {'+'.join(acc)} code generation{which}",
                                     "detail": {"text": text, "reason": reason, "outcome": outcome}})
     else:
-        if any(o != "accepted" for o in outcome.values()):
+        # only the explicit control edits must be accepted; a verbatim repetition is not a *differing* definition, so nothing is demanded of it
+        if item["label"].startswith("control|") and any(o != "accepted" for o in outcome.values()):
             res["failures"].append({"finding": f"{ID}|control-rejected|{bn}|{fault_class(item['label'])}", "size": len(text),
                                     "what": f"well-formed control text is rejected: {outcome}", "detail": {"text": text, "outcome": outcome}})
     return res
